@@ -201,8 +201,9 @@ def gen_c(ex, acts, nobj, prelude, sigs, dumps=None):
     for a in acts:
         if a[0] == "call" and a[1] not in decl:
             decl.add(a[1])
-            rt, ps = sigs[a[1]]
-            L.append("extern %s %s(%s);" % (rt, a[1], ", ".join(ps) if ps else "void"))
+            rt, ps = sigs[a[1]][:2]
+            va = len(sigs[a[1]]) > 2 and sigs[a[1]][2]
+            L.append("extern %s %s(%s%s);" % (rt, a[1], ", ".join(ps) if ps else ("void" if not va else ""), ", ..." if va else ""))
     L.append("""static void dump(int step, unsigned long long alive){ for(int k=0;k<%d;k++){ if(!O[k] || !((alive>>k)&1)) continue; printf("D %%d %%d ",step,k);
   for(size_t j=0;j<OS[k];j++) printf("%%02x",((unsigned char*)O[k])[j]); printf("\\n"); }
   printf("A %%d",step); for(int k=0;k<%d;k++) printf(" %%llx",(unsigned long long)(uintptr_t)O[k]); printf("\\n"); }""" % (nobj, nobj))
@@ -235,7 +236,8 @@ def gen_c(ex, acts, nobj, prelude, sigs, dumps=None):
                 ct = {1: "uint8_t", 2: "uint16_t", 4: "uint32_t", 8: "uint64_t"}[a[2]]
                 L.append("  *(%s*)(uintptr_t)%s = (%s)%s;" % (ct, c_expr(a[1]), ct, c_expr(a[3])))
         elif k == "call":
-            rt, ps = sigs[a[1]]
+            rt, ps = sigs[a[1]][:2]
+            ps = list(ps) + ["void*" if e[0] in ("p", "fn", "op") else "uint64_t" for e in a[2][len(ps):]]
             args = []
             for e, pt in zip(a[2], ps):
                 if pt == "double":
@@ -276,9 +278,9 @@ def ir_sigs(ex):
         if isinstance(t, PtrT): return "void*"
         if isinstance(t, StructT) and t.fields and len(t.fields) == 2 and all(isinstance(f, FloatT) for f in t.fields): return "vcpx"
         return "uint64_t"
-    sigs = {}
+    sigs = {"free": ("void", ["void*"], False), "malloc": ("void*", ["uint64_t"], False)}
     for nm, f in list(ex.funcs.items()) + list(ex.decls.items()):
-        sigs[nm] = (ct(f.ret), [ct(t) for t, _ in f.params])
+        sigs[nm] = (ct(f.ret), [ct(t) for t, _ in f.params], f.vararg)
     return sigs
 
 
